@@ -335,7 +335,41 @@ func minimise(p *props.Property, vals []uint32, sig string, o props.Opts, maxAtt
 		return false
 	}
 	best = trimZeros(best)
-	// 1. delete chunks (drops operations / choices), 2. zero chunks, 3. lower single values
+	// 0. shortest prefix: an exhausted tape yields 0 (= simplest choice), so cutting the tail is the
+	//    cheapest big step (it keeps every earlier scheduling decision aligned)
+	lo, hi := 0, len(best)
+	for lo < hi && attempts < maxAttempts {
+		mid := (lo + hi) / 2
+		n0 := len(best)
+		if try(append([]uint32(nil), best[:mid]...)) {
+			hi = len(best)
+			if hi > mid {
+				hi = mid
+			}
+			_ = n0
+		} else {
+			lo = mid + 1
+		}
+	}
+	// 1. zero chunks (keeps alignment), 2. delete chunks (drops operations / choices), 3. lower single values
+	for chunk := len(best) / 4; chunk >= 1 && attempts < maxAttempts; chunk /= 2 {
+		for pos := 0; pos+chunk <= len(best) && attempts < maxAttempts; pos += chunk {
+			allZero := true
+			for _, v := range best[pos : pos+chunk] {
+				if v != 0 {
+					allZero = false
+				}
+			}
+			if allZero {
+				continue
+			}
+			cand := append([]uint32(nil), best...)
+			for i := pos; i < pos+chunk; i++ {
+				cand[i] = 0
+			}
+			try(cand)
+		}
+	}
 	for chunk := len(best) / 2; chunk >= 1 && attempts < maxAttempts; chunk /= 2 {
 		for pos := 0; pos+chunk <= len(best) && attempts < maxAttempts; {
 			cand := append(append([]uint32(nil), best[:pos]...), best[pos+chunk:]...)
@@ -511,6 +545,12 @@ func cmdCheck(args []string) int {
 	}
 	start := time.Now()
 	self, _ := os.Executable()
+	// replay files of earlier runs of this check are stale now
+	if old, _ := filepath.Glob(filepath.Join(*verifDir, "replays", p.ID+"-*.json")); len(old) > 0 {
+		for _, f := range old {
+			os.Remove(f)
+		}
+	}
 	tmp, err := os.MkdirTemp(filepath.Join(*verifDir, ".cache"), "run-")
 	if err != nil {
 		fmt.Fprintln(os.Stderr, "verif:", err)
